@@ -8,11 +8,19 @@
 ABTI_global *gp_ABTI_global;
 static ABTI_global G;
 int mprotect(void *a, size_t l, int p) { return 0; }
+/* guard-page ledger (util/mprotect.c's ABTU_mprotect is a thin wrapper around mprotect(2)) */
+static char *guard_addr; static size_t guard_size; static int guard_set, guard_bad;
+int ABTU_mprotect(void *addr, size_t size, ABT_bool protect)
+{
+    if (protect) { if (guard_set) guard_bad = 1; guard_set = 1; guard_addr = addr; guard_size = size; }
+    else { if (!guard_set || addr != (void *)guard_addr || size != guard_size) guard_bad = 1; guard_set = 0; }
+    return ABT_SUCCESS;
+}
 
 int main(void)
 {
     gp_ABTI_global = &G;
-    G.stack_guard_kind = ABTI_STACK_GUARD_NONE;
+    { int gk = nondet_int(); VR_ASSUME(gk >= 0 && gk <= 2); G.stack_guard_kind = gk == 0 ? ABTI_STACK_GUARD_NONE : gk == 1 ? ABTI_STACK_GUARD_MPROTECT : ABTI_STACK_GUARD_MPROTECT_STRICT; }
     G.sys_page_size = 4096;
     size_t dflt = nondet_size_t(); VR_ASSUME(dflt >= 512 && dflt <= (16u << 20) && dflt % 512 == 0); /* abtd_env rounds the default to 512 */
     G.thread_stacksize = dflt;
@@ -44,13 +52,18 @@ int main(void)
     VR_ASSERT(top == ustack + ss && sz == ss, "user stack recorded exactly as supplied");
     VR_ASSERT(__CPROVER_POINTER_OBJECT(y) != __CPROVER_POINTER_OBJECT(ubuf), "descriptor is not placed in the user's stack");
 #endif
-    bot[0] = 1; top[-1] = 2;                    /* both ends of the usable stack are writable */
+    if (guard_set && ss >= 2 * 4096) VR_ASSERT(guard_addr >= bot && guard_addr + guard_size <= top && guard_size == 4096 && ((size_t)__CPROVER_POINTER_OFFSET(guard_addr) + 0) % 1 == 0, "the guard page lies inside the ULT's own stack (stacks of at least two pages)");
+    if (guard_set) VR_WITNESS("a guard page was installed");
+    if (!guard_set) bot[0] = 1;
+    top[-1] = 2;                    /* both ends of the usable stack are writable */
     y->thread.p_keytable.val = NULL;
+    y->thread.type |= ABTI_THREAD_TYPE_THREAD | ABTI_THREAD_TYPE_YIELDABLE;     /* as ythread_create does for every ULT */
 #if PROV != 1
     if (ss % 64 != 0 && ss > 4096) VR_WITNESS("stack size that is not a multiple of the cache line");
 #endif
     if (ss % 64 == 0) VR_WITNESS("cache-line multiple");
     ABTI_mem_free_thread(&G, NULL, &y->thread);  /* cbmc checks: free() of exactly the malloc'ed pointer, once */
+    VR_ASSERT(!guard_set && !guard_bad, "freeing the ULT removes exactly the guard page it installed, in every guard mode (no page of returned heap / user memory stays inaccessible)");
 #if PROV == 2
     ustack[0] = 3;                              /* the user's stack is still the user's */
     free(ubuf);
